@@ -1612,6 +1612,12 @@ func (n *node) SetCTRLC(enable bool) {
 //
 
 func (n *node) spawn(factory gen.ProcessFactory, options gen.ProcessOptionsExtra) (gen.PID, error) {
+	return n.spawnMember(factory, options, nil)
+}
+
+// spawnMember spawns a process. If app is not nil the process is a member of
+// that application (spawned by application.start).
+func (n *node) spawnMember(factory gen.ProcessFactory, options gen.ProcessOptionsExtra, app *application) (gen.PID, error) {
 	var empty gen.PID
 
 	if n.isRunning() == false {
@@ -1784,13 +1790,11 @@ func (n *node) spawn(factory gen.ProcessFactory, options gen.ProcessOptionsExtra
 		n.targetManager.AddLink(p.parent, p.pid)
 	}
 
-	if p.application != "" && options.ParentPID == n.corePID {
-		// a member of an application (spawned by application.start): it must
-		// be in the member table before it can run and terminate, otherwise
-		// its termination is not seen by the application
-		if v, exist := n.applications.Load(p.application); exist {
-			v.(*application).group.Store(p.pid, true)
-		}
+	if app != nil {
+		// a member of an application: it must be in the member table before
+		// it can run and terminate, otherwise its termination is not seen by
+		// the application
+		app.group.Store(p.pid, true)
 	}
 
 	// register process and switch it to the sleep state
